@@ -3,7 +3,7 @@ from fractions import Fraction as Fr
 
 from engine import loader
 from engine.runner import Acc
-from engine.util import ca_for, call, chunks, ts_dec, ts_pair
+from engine.util import ca_for, call, chunks, ts_dec, ts_pair, vary_case
 from spec import cpr as C
 from spec import cprsets as S
 from spec import frames as F
@@ -84,7 +84,8 @@ def make(latA, lonA, disp, tc, first_newer, alt12=0x5A3, hdr=0):
     m0 = F.es(C.me_airborne(tc, alt12, 0, e0["yz"], e0["xz"], ss=hdr % 4, saf=hdr % 2, t=(hdr // 2) % 2), aa, ca_for(17 + hdr % 2, hdr // 2), 17 + hdr % 2)
     df1 = 17 + (hdr // 2) % 2        # the formats of the two frames rotate independently (DF17 squitter + DF18 rebroadcast)
     m1 = F.es(C.me_airborne(partner_tc(tc, hdr % 4), alt12, 1, e1["yz"], e1["xz"], ss=(hdr + 1) % 4, saf=0, t=hdr % 2), aa, ca_for(df1, hdr // 4), df1)
-    return m0, m1, e0, e1
+    # each frame in its own spelling (upper / lower / mixed hex), rotating independently
+    return vary_case(m0, hdr // 3), vary_case(m1, hdr // 5), e0, e1
 
 
 def expected(e0, e1, newer_is_even):
